@@ -66,7 +66,7 @@ def run(ctx):
         # Knuth's published self-test of the generator on the exact model (about 6 minutes of TLC, in parallel with the batches)
         import concurrent.futures
         pool = concurrent.futures.ThreadPoolExecutor(1)
-        selftest = pool.submit(lambda: run_tlc("KnuthSelfTest", "", workers=1, timeout=3000, xmx="4g"))
+        selftest = pool.submit(lambda: run_tlc("KnuthSelfTest", "", workers=1, timeout=3000, xmx="4g", xss="256m"))
     verdicts = check(ctx, recs + [bad, bad2])
     if selftest is not None:
         r = selftest.result()
